@@ -942,10 +942,15 @@ def run_history(chk, drv, spec, cell, df, dseed, ops, tag, judge_every=True, nge
 run_history.fresh = {}
 
 
+ENV_ERRORS = ('only 0-dimensional arrays can be converted to Python scalars',      # float(ndarray of size 1), numpy >= 2.x
+              "unexpected keyword argument 'labels'")                                # Axes.boxplot(labels=), matplotlib >= 3.11
+
+
 def probe_unavailable(rng, spec, cell, df):
-    """methods that raise even on a fully specified and fitted fresh object: incompatibilities between zEpid and the
-    installed numpy / matplotlib (float() of a 1-element array, Axes.boxplot(labels=)), not guards.  They stay in the
-    histories (non-mutation, same status as on the fresh object) but the model is not asked to predict them."""
+    """methods that raise even on a fully specified and fitted fresh object *with one of the listed messages*:
+    incompatibilities between zEpid and the installed numpy / matplotlib, not guards.  They stay in the histories
+    (non-mutation, same status as on the fresh object) but the model is not asked to predict them (gate H: measured
+    per data set, listed in the evidence)."""
     def plain(m):
         for _ in range(30):
             o = new_op(rng, m, cell)
@@ -963,7 +968,7 @@ def probe_unavailable(rng, spec, cell, df):
     for m in spec.methods:
         if m.kind in ('read', 'res'):
             r = do_call(spec, obj, plain(m))
-            if r[0] == 'err':
+            if r[0] == 'err' and any(e in r[1] for e in ENV_ERRORS):
                 bad[m.mid] = r[1]
     return bad
 
@@ -1044,7 +1049,7 @@ def refit_stream(rng, spec, cell):
     a += [variant(rng, m, cell, False) for m in specs if not m.once] + [variant(rng, fits[-1], cell, False)]
     a += [new_op(rng, m, cell) for m in reads]
     b = [variant(rng, m, cell, False) for m in specs]
-    b += [new_op(rng, fits[0], cell), new_op(rng, fits[-1], cell)] + [new_op(rng, m, cell) for m in res]
+    b += [variant(rng, fits[0], cell, False), new_op(rng, fits[-1], cell)] + [new_op(rng, m, cell) for m in res]
     for m in specs:
         if not m.once:
             b += [variant(rng, m, cell, True), new_op(rng, pick(rng, fits), cell)] + [new_op(rng, x, cell) for x in res]
